@@ -151,6 +151,7 @@ func (b *Buffer) Commit(dig ociregistry.Digest) (_ ociregistry.Descriptor, err e
 	if err := b.checkCommit(dig); err != nil {
 		return ociregistry.Descriptor{}, err
 	}
+	verifYield("Buffer.Commit:checked")
 	// Note: we're careful to call this function outside of the mutex so
 	// that it can call locked Buffer methods OK.
 	if err := b.commit(b); err != nil {
